@@ -208,6 +208,13 @@ def replay(beh, workdir, seed):
         try:
             if op == 'Build':
                 w.map = ExchangeMap(w.objs[0], w.objs[1], scale)
+                if step % 2:
+                    # the table the map hands out is read and then edited by the caller (lists emptied, entries merged): the map
+                    # keeps working from its own construction
+                    eqv = w.map.equivalences
+                    for k_ in list(eqv):
+                        del eqv[k_][:]
+                    eqv.clear()
             elif op == 'Call':
                 st = np.random.get_state()[1].copy()
                 res = w.map(w.objs[o])
